@@ -34,3 +34,116 @@ Proof.
   - left. repeat split; auto. unfold own_branch. rewrite Heqp0. destruct b0; [|reflexivity].
     simpl in Heqb6. apply negb_false_iff in Heqb6. apply Nat.eqb_eq in Heqb6. apply Nat.eqb_eq. auto.
 Qed.
+
+Lemma fstep_ppj : forall p s e o s' outs, fstep p s e o = Some (s', outs) ->
+  forall all c0, ppj s' = PQrc all c0 -> ppj s = PQrc all c0 \/ (all = flat (buffer s') /\ c0 = cfr s).
+Proof.
+  intros p s e o s' outs H all c0 Hp.
+  destruct e; crush_fstep H; st; try discriminate; auto; try congruence.
+  all: inversion Hp; subst; auto.
+Qed.
+
+(* ---- network: the cached justification snapshot of every honest member consists of deliverable parts and was
+        taken with compareFailureRound = 0 ---- *)
+
+Definition ppjinv (c : cfg) (nt : net) : Prop :=
+  forall i, good c i -> forall all c0, ppj (nst nt i) = PQrc all c0 -> c0 = 0 /\ forall y, In y all -> deliv c (sent nt) y.
+
+Lemma ppjinv_step : forall c nt i l nt', wf_cfg c -> ninv c nt -> ppjinv c nt -> nstep c nt i l nt' -> label_nofail l = true ->
+  ppjinv c nt'.
+Proof.
+  intros c nt i l nt' Hwf NI PI Hs Hnf.
+  pose proof (ninv_step c nt i l nt' Hwf NI Hs Hnf) as NI'.
+  inversion Hs as [nt0 i0 l0 s' Hgood Hstep Hdel]; subst nt0 i0 l0.
+  pose proof (step_fstep _ _ _ _ Hstep) as Hf.
+  intros j Hj all c0 Hp. simpl in Hp |- *. destruct (Nat.eq_dec j i) as [->|Hne].
+  - rewrite upd_same in Hp. destruct (fstep_ppj _ _ _ _ _ _ Hf all c0 Hp) as [Hq|[Hq1 Hq2]].
+    + destruct (PI i Hgood all c0 Hq) as [P1 P2]. split; [exact P1|]. intros y Hy. apply deliv_mono. auto.
+    + split; [rewrite Hq2; exact (n_cfr c nt NI i Hgood)|]. intros y Hy. subst all.
+      subst nt'. pose proof (n_buf c _ NI' i Hgood y) as Hb. simpl in Hb. rewrite upd_same in Hb. auto.
+  - rewrite upd_other in Hp by assumption. destruct (PI j Hj all c0 Hp) as [P1 P2]. split; [exact P1|].
+    intros y Hy. apply deliv_mono. auto.
+Qed.
+
+Lemma nreach_ppjinv : forall c nt tr, wf_cfg c -> nreach c nt tr -> trace_nofail tr -> ppjinv c nt.
+Proof.
+  intros c nt tr Hwf H. induction H as [|nt tr i l nt' Hr IH Hs]; intro Hnf.
+  - intros i Hi all c0 Hp. simpl in Hp. discriminate.
+  - assert (Hnf' : trace_nofail tr) by (intros j l' Hin; apply (Hnf j l'); apply in_or_app; left; exact Hin).
+    eapply ppjinv_step; [exact Hwf | exact (nreach_ninv c nt tr Hwf Hr Hnf') | exact (IH Hnf') | exact Hs |].
+    apply (Hnf i l). apply in_or_app. right. left. reflexivity.
+Qed.
+
+(* ---- the theorem ---- *)
+
+Lemma nstep_bcast_justified : forall c nt i l nt', wf_cfg c -> (forall k, k < c_n c -> c_honest c k = true) ->
+  ninv c nt -> ppjinv c nt -> nstep c nt i l nt' -> label_nofail l = true ->
+  forall b J, In (Bcast b J) (label_outs l) -> forall j c', justified (pp c j) (mkm b J) c' = true.
+Proof.
+  intros c nt i l nt' Hwf Hall NI PI Hs Hnf b J Hin j c'.
+  pose proof (ninv_step c nt i l nt' Hwf NI Hs Hnf) as NI'.
+  inversion Hs as [nt0 i0 l0 s' Hgood Hstep Hdel]; subst nt0 i0 l0.
+  pose proof (step_fstep _ _ _ _ Hstep) as Hf.
+  assert (Hnp : 1 <= nodes (pp c i)) by exact (proj1 Hwf).
+  pose proof (n_inv c nt NI i Hgood) as Hinv.
+  assert (Hq : 1 <= qn (pp c i)) by exact (quorum_pos (c_n c) (proj1 Hwf)).
+  destruct (ty b) eqn:Hty.
+  - (* PRE-PREPARE *)
+    destruct (fstep_pp_detail _ _ _ _ _ _ Hnp Hinv Hf b J Hin Hty) as [Hsrc [Hlead Hcase]].
+    unfold justified. simpl. rewrite Hty. unfold justified_preprepare. simpl.
+    assert (Hl : is_leader (pp c j) (rnd b) (src b) = true) by (rewrite Hsrc; exact Hlead).
+    rewrite Hl. simpl.
+    destruct Hcase as [[K1 [K2 [K3 K4]]]|[all [c0 [Hadm [Hall_c0 Hval]]]]].
+    + rewrite K1. simpl. rewrite andb_true_r. apply negb_true_iff, N.eqb_neq. rewrite K3. exact K4.
+    + (* parts of the snapshot are honest broadcasts present in sent of the new state; c0 = 0 *)
+      assert (Hc0 : c0 = 0 /\ forall y, In y all -> In y (sent nt')).
+      { destruct Hall_c0 as [[Ha Hc]|Hp].
+        - split; [rewrite Hc; exact (n_cfr c nt NI i Hgood)|]. intros y Hy. subst all nt'.
+          pose proof (n_buf c _ NI' i Hgood y) as Hb. simpl in Hb. rewrite upd_same in Hb. specialize (Hb Hy).
+          apply (deliv_honest_in c); [exact Hb | apply Hall; exact (proj1 Hb)].
+        - destruct (PI i Hgood all c0 Hp) as [P1 P2]. split; [exact P1|]. intros y Hy. subst nt'. simpl.
+          apply in_or_app. left. apply (deliv_honest_in c); [exact (P2 y Hy) | apply Hall; exact (proj1 (P2 y Hy))]. }
+      destruct Hc0 as [Hc0 Hsent]. subst c0.
+      destruct (adm_qrc_contains _ _ _ _ Hq Hadm) as [x [Hx Hxs]]. change (qn (pp c i)) with (qn (pp c j)) in Hx. rewrite Hx.
+      assert (HJsent : forall y, In y J -> In y (sent nt')) by (intros y Hy; apply Hsent; eapply adm_qrc_sub; eassumption).
+      destruct Hval as [[V1 [V2 V3]]|[spr [V1 V2]]].
+      * (* own input value *)
+        assert (Hx0 : x = 0%N).
+        { destruct Hxs as [Hxs|[spr' Hs']]; [exact Hxs|]. exfalso.
+          unfold own_branch in V3. rewrite Hs' in V3. apply Nat.eqb_eq in V3. subst spr'.
+          destruct (single_true_witness _ _ _ _ Hq Hs') as [y [Y1 [Y2 [Y3 _]]]].
+          pose proof (HJsent y Y1) as Ys.
+          pose proof (n_linv c nt' NI' (src y) (n_sent c nt' NI' y Ys)) as L.
+          pose proof (l_prep_pos _ _ _ L y (own_intro nt' y Ys) Y2). lia. }
+        subst x. rewrite N.eqb_refl. simpl. rewrite !orb_true_r, andb_true_r.
+        apply negb_true_iff, N.eqb_neq. rewrite V1. exact V2.
+      * (* re-proposal of the prepared value *)
+        destruct (single_true_witness _ _ _ _ Hq V1) as [y [Y1 [Y2 [_ Y4]]]].
+        assert (Hnz : val b <> 0%N) by (rewrite <- Y4; apply (sent_prepare_nonzero c nt' NI' y (HJsent y Y1) Y2)).
+        assert (Hxv : x = 0%N \/ x = val b).
+        { destruct Hxs as [Hxs|[spr' Hs']]; [left; exact Hxs | right]. rewrite V1 in Hs'. inversion Hs'. reflexivity. }
+        assert (E1 : negb (N.eqb (val b) 0) = true) by (apply negb_true_iff, N.eqb_neq; exact Hnz). rewrite E1. simpl.
+        destruct Hxv as [->| ->]; [rewrite N.eqb_refl | rewrite N.eqb_refl]; simpl; rewrite ?orb_true_r; reflexivity.
+  - apply prepare_commit_justified. left. exact Hty.
+  - apply prepare_commit_justified. right. exact Hty.
+  - apply (fstep_bcast_justified _ _ _ _ _ _ Hnp Hinv Hf b J Hin (pp c j) c'); [reflexivity | left; exact Hty].
+  - apply (fstep_bcast_justified _ _ _ _ _ _ Hnp Hinv Hf b J Hin (pp c j) c'); [reflexivity | right; exact Hty].
+Qed.
+
+(* C04 honest_never_unjust: no Byzantine members, Compare never fails: every message a member broadcasts, delivered with the
+   justification it was sent with, passes isJustified at every member j whatever j's state (any compareFailureRound c'; the
+   other checks of isJustified do not look at the state). *)
+Theorem honest_never_unjust : forall c nt tr, wf_cfg c -> (forall k, k < c_n c -> c_honest c k = true) ->
+  nreach c nt tr -> trace_nofail tr ->
+  forall i l b J, In (i, l) tr -> In (Bcast b J) (label_outs l) ->
+  forall j c', justified (pp c j) (mkm b J) c' = true.
+Proof.
+  intros c nt tr Hwf Hall H. induction H as [|nt tr i0 l0 nt' Hr IH Hs]; intros Hnf i l b J Hil Hb j c'.
+  - contradiction.
+  - assert (Hnf' : trace_nofail tr) by (intros k l' Hin; apply (Hnf k l'); apply in_or_app; left; exact Hin).
+    apply in_app_or in Hil. destruct Hil as [Hil|[Hil|[]]].
+    + exact (IH Hnf' i l b J Hil Hb j c').
+    + inversion Hil; subst i0 l0.
+      apply (nstep_bcast_justified c nt i l nt' Hwf Hall (nreach_ninv c nt tr Hwf Hr Hnf') (nreach_ppjinv c nt tr Hwf Hr Hnf') Hs);
+        [apply (Hnf i l); apply in_or_app; right; left; reflexivity | exact Hb].
+Qed.
